@@ -27,12 +27,12 @@ CLAIMED = {
     'C10': ('K4', 'floor/budget inequalities over ordered fields with a floor (Lean) + exact correspondence of target quantities + structural tie for weight normalisation, the per-asset kernel and the fee models', '6 C10'),
     'C11': ('K4', 'truncation/sign/gross-exposure inequalities over ordered fields (Lean) + exact correspondence of target quantities + structural tie for gross-leverage scaling, the per-asset kernel and the fee models', '6 C11'),
     'C12': ('K1', 'generative date_range = filter over the day range, by induction (Lean) + correspondence of the event list with pandas', '6 C12'),
-    'C13': ('K1', 'schedule = declarative calendar filter, structural months (Lean) + correspondence with the four Rebalance classes', '6 C13'),
+    'C13': ('K1+K7', 'schedule = declarative calendar filter, structural months (Lean) + correspondence with the four Rebalance classes and the schedule a session builds', '6 C13'),
     'C16': ('K5+K7', 'deque-window lemma and telescoping product (Lean) + correspondence of buffers and signal values', '6 C16'),
     'C17': ('K6', 'compounding/drawdown/scale-invariance theorems (Lean) + correspondence of every reported statistic', '6 C17'),
     'C19': ('K4+K7', 'universe membership and PCM composition invariant (Lean) + correspondence of universes, alpha keys, optimisers', '6 C19'),
     'C14': ('K7', 'fold invariant over the event list: rebalances = clock ∩ schedule ∩ burn-in, equity at closes, allocation table (Lean) + structural correspondence of sessions', '6 C14'),
-    'C18': ('K7', 'independence of set-enumeration order, memo table and order ids (Lean) + repeated real runs: same process, reused data source, fresh interpreters under different hash seeds', '6 C18'),
+    'C18': ('K7+K3D', 'independence of set-enumeration order, memo table and order ids (Lean) + repeated real runs: same process, reused data source, fresh interpreters under different hash seeds', '6 C18'),
     'C15': ('K3', 'case analysis of the step function: refusal leaves the observable state unchanged (Lean) + stepwise correspondence of refusals + structural tie for the refusal paths of Position', '6 C15'),
 }
 
